@@ -1203,7 +1203,9 @@ with exec_for (n : nat) (P : program) (e : env) (var : str) (rg : ranger) (body 
     | None => ret (SigNone, e)
     | Some (l, rg') =>
         let* e1 := update_var var l e in
-        let* (sig, e2) := exec_block f P e1 body in
+        (* every iteration runs the body in a scope of its own (pushScope / popScope around eval(f.Block)) *)
+        let* (sig, e2') := exec_block f P ([] :: e1) body in
+        let e2 := tl e2' in
         match sig with
         | SigBreak => ret (SigNone, e2)
         | SigReturn v => ret (SigReturn v, e2)
